@@ -4,6 +4,8 @@ from ..facts import AnchorMissing
 from ..guards import analysis, closure_info, closure_ret, subst_upvars, as_cmp, impl_cmp
 from ..sym import Sym, forward_paths, path_atoms, atom_str
 from ..terms import strip, short, cname, unmut, walk
+from .common import commut_sort
+import json
 
 LEVEL = "other"
 R = "alpha_g_physics::reconstruction::"
@@ -123,6 +125,49 @@ def run(prog, tier, res):
         res.hit(R1)
     else:
         res.violate(R1, LARGEST, "linkage", "largest_cluster does not link two points when SpacePoint::distance(..) <= max_distance", lb.where())
+
+    # the relation itself: SpacePoint::distance is the Euclidean distance of the two points
+    DIST = "alpha_g_physics::SpacePoint::distance"
+    if DIST in prog.bodies:
+        db = prog.body(DIST)
+        dan = analysis(prog, db)
+        dsy = Sym(prog, dan, slice_param=99)
+        res.functions.add(DIST)
+        drets = [commut_sort(dsy.name(t)) for _, t in dan.ret_assignments()]
+        want_d = accept.load_spec("c15.json")["distance"]
+        if drets == [want_d]:
+            res.hit(R1)
+        else:
+            res.violate(R1, DIST, "euclidean", "SpacePoint::distance returns %s, not the Euclidean distance %s: the 3 cm single-linkage relation is defined on it" % (drets, want_d), db.where())
+        for nm_ in ("x", "y"):
+            pn = "alpha_g_physics::SpacePoint::" + nm_
+            if pn not in prog.bodies:
+                continue
+            xb = prog.body(pn)
+            xan = analysis(prog, xb)
+            xr = [commut_sort(Sym(prog, xan, slice_param=99).name(t)) for _, t in xan.ret_assignments()]
+            want_x = accept.load_spec("c15.json")[nm_]
+            res.functions.add(pn)
+            if xr == [want_x]:
+                res.hit(R1)
+            else:
+                res.violate(R1, pn, "cartesian", "SpacePoint::%s returns %s, not %s" % (nm_, xr, want_x), xb.where())
+    else:
+        raise AnchorMissing("no " + DIST)
+    # ------------------------------------------------------------------ R6: the flood fill
+    R6 = res.rule("C15.R6", "largest_cluster grows a cluster by flood fill with two cursors: for every member (cursor I from 0, +1 per member, while I < cluster length) "
+                  "every remaining point (cursor J from 0 while J < points length) is either linked (moved into the cluster by swap_remove(J), J unchanged) or skipped (J + 1)", 0)
+    fm = flood_model(prog)
+    res.extra["largest_cluster_flood"] = fm if fm is not None else "not the two-cursor form: the flood-fill clause is not decided for this tree"
+    if fm is not None:
+        fsp = accept.load_spec("c15.json")["flood"]
+        for key_, what in (("I", "the member cursor starts at 0 for every new cluster and advances by one after all remaining points were tried"),
+                           ("J", "the point cursor starts at 0 for every member and advances by one exactly when the point is not linked"),
+                           ("link", "a point within the distance of the current member is moved from the remaining points into the cluster")):
+            if fm.get(key_) == fsp[key_]:
+                res.hit(R6)
+            else:
+                res.violate(R6, LARGEST, "flood:%s" % key_, "%s: found %s" % (what, json.dumps(fm.get(key_))[:700]), lb.where(), detail={"got": fm.get(key_), "want": fsp[key_]})
 
     # ------------------------------------------------------------------ R2
     sites = []
@@ -402,4 +447,93 @@ def strip_deref(t):
     t = unmut(t)
     while t[0] == "call" and short(t[1]) in ("Deref::deref", "DerefMut::deref_mut") and len(t[2]) == 1:
         t = unmut(t[2][0])
+    return t
+
+
+def flood_model(prog):
+    """the flood fill of largest_cluster as data, in role vocabulary: J = the integer cursor that indexes the swap_remove of
+    a linked point, I = the other loop-carried integer cursor, POINTS = the vector the point is removed from, CLUSTER = the
+    vector it is pushed to, MAX = the distance parameter.  None when the function is not in that form (then the clause
+    is not decided).  I / J: sorted [value, guards] over every assignment; link: the push with its guards."""
+    from ..sym import atom_str
+    b = prog.body(LARGEST)
+    an = analysis(prog, b, positions=True)
+    sy = Sym(prog, an, slice_param=99)
+    tm = an.terms
+    lp = set()
+    for tl, h in b.back_edges():
+        lp |= set(b.natural_loop(tl, h))
+    if not lp:
+        return None
+    carried = [l for l in range(len(b.locals)) if b.locals[l]["ty"].get("k") == "int" and len(tm.defs.whole[l]) > 1
+               and all(d[0] in lp for d in tm.defs.whole[l])]
+    srs = [(bb, t) for bb, t in b.calls() if bb in lp and short(cname(t)) == "Vec::<T, A>::swap_remove"]
+    pushes = [(bb, t) for bb, t in b.calls() if bb in lp and short(cname(t)) == "Vec::<T, A>::push"]
+    if len(carried) != 2 or len(srs) != 1:
+        return None
+
+    def plain_local(o):
+        if not (isinstance(o, dict) and o.get("k") in ("copy", "move") and not (o.get("p") or {}).get("pr")):
+            return None
+        l = o["p"]["l"]
+        while len(tm.defs.whole[l]) == 1 and b.locals[l].get("name") is None:
+            (bi, si, x) = tm.defs.whole[l][0]
+            if si == "t" or x.get("k") != "use":
+                break
+            o2 = x.get("o")
+            if not (isinstance(o2, dict) and o2.get("k") in ("copy", "move") and not (o2.get("p") or {}).get("pr")):
+                break
+            l = o2["p"]["l"]
+        return l
+    sbb, st = srs[0]
+    J = plain_local(st["args"][1])
+    if J not in carried:
+        return None
+    I = [l for l in carried if l != J][0]
+    tm._pos = (sbb, "t")
+    names = {"I": sy.arg_name(tm.local(I)), "J": sy.arg_name(tm.local(J))}
+    if names["I"] == names["J"]:
+        return None
+    vecs = {"POINTS": sy.arg_name(unref(tm.operand(st["args"][0])))}
+    link_push = None
+    for pbb, pt in pushes:
+        tm._pos = (pbb, "t")
+        v = strip(tm.operand(pt["args"][1]))
+        if v[0] == "call" and short(v[1]) == "Vec::<T, A>::swap_remove":
+            link_push = (pbb, pt)
+            vecs["CLUSTER"] = sy.arg_name(unref(tm.operand(pt["args"][0])))
+    if link_push is None or vecs["CLUSTER"] == vecs["POINTS"]:
+        return None
+    table = dict(names)
+    table.update(vecs)
+    order = sorted(table, key=lambda r: -len(table[r]))
+
+    def roles(txt):
+        for r in order:
+            txt = txt.replace(table[r], r)
+        return txt.replace("mut(POINTS)", "POINTS").replace("mut(CLUSTER)", "CLUSTER")
+
+    def guards_at(bb):
+        ats = set()
+        for (d, rel, vals) in an.atoms_at(bb):
+            for a in sy.atoms(d, rel, vals):
+                ats.add(roles(atom_str(a)))
+        return sorted(ats)
+    out = {}
+    for role, l in (("I", I), ("J", J)):
+        rows = []
+        for (bi, si, x) in tm.defs.whole[l]:
+            tm._pos = (bi, si)
+            rows.append([roles(sy.arg_name(tm.call_term(x, bi) if si == "t" else tm.rvalue(x))), guards_at(bi)])
+        out[role] = sorted(rows)
+    pbb, pt = link_push
+    tm._pos = (pbb, "t")
+    out["link"] = {"pushes_in_loops": len(pushes), "value": roles(sy.arg_name(tm.operand(pt["args"][1]))), "guards": guards_at(pbb)}
+    return out
+
+
+def unref(t):
+    t = strip(t)
+    while t[0] in ("ref", "deref"):
+        t = strip(t[1])
     return t
